@@ -1,5 +1,5 @@
 HOOK_COMMITS = ['261214f', '7473a7b', 'b193b9c', '236d7ec', 'e2efb1f', '03a69db', 'cfb1ec0']
-FIX_COMMITS = ['6ab1b61', 'aa5da3f', '23893cd', 'b2f43bf', '6457cb8', '9d7243e', '99e9484', '2173ac6', '62af4cc', '26a6dc2', '11fc74a', '0f6d027', 'e5a31d6', '90ab653', 'c33be62', '33896dd', '86f9aa3', '5aea712', '7455c3e', '08de576', '70dc05f', 'a801988']
+FIX_COMMITS = ['6ab1b61', 'aa5da3f', '23893cd', 'b2f43bf', '6457cb8', '9d7243e', '99e9484', '2173ac6', '62af4cc', '26a6dc2', '11fc74a', '0f6d027', 'e5a31d6', '90ab653', 'c33be62', '33896dd', '86f9aa3', '5aea712', '7455c3e', '08de576', '70dc05f', 'a801988', '4988600']
 NOTES = ('Every check: proof gate (full coq build, forbidden-construct scan, Print Assumptions allow-list = empty) '
          '+ correspondence (extracted model vs real code on corpus + generated cases) + model-free oracle; '
          'known findings in known_findings.json. See DESIGN.md.')
@@ -271,3 +271,14 @@ CLAIMED['C18']['text'] += ' GeoIP data is shared by groups of addresses (a hidde
 CLAIMED['C19']['text'] += ' END TO END (mode e2e): unrewritten simulated paths never show NAT, incl. configurations whose UDP checksum computes to zero.'
 CLAIMED['C11']['text'] += ' Probe SEQUENCES on one channel (c11seq): every probe of a sequence with equal / alternating / ascending ttls comes out as from a fresh channel (model send_many).'
 CLAIMED['C13']['text'] += ' The checksums on the wire: the dispatched datagrams of mode c11 are verified by an independent RFC 1071 summation under this property too.'
+
+CLAIMED['C17']['text'] += (' INTERLEAVING (Proofs/TuiInterleave.v, TuiShapeOfState.v, TuiFrameLemmas.v, TuiHostsProofs.v): every State the core model can reach has a well-formed shape (the former environment assumption is discharged); '
+    'from TuiApp::new plus the first frame every finite list of Cmd / Data events (each Data followed by the loop prologue and draw) runs without fault and the selection invariant holds after every event; every index and subtraction of '
+    'tui_app.rs / columns.rs is Ok under it; what a frame displays; the zoom factor stays in 1..16; max_addrs is never Some 0 along every history (defect F21 repaired: expand_hosts_max on hops without any address stored 0 and the next frame panicked in clamp(1, 0)). '
+    'Observations shown by witness: frozen display + next_trace shows the new header over the old table.')
+CLAIMED['C18']['text'] += (' FRAMES (Tui/Views.v - an executable model of what every view prints about a hop and how a frame is composed, its privacy decisions being the harness-checked functions of Tui/Privacy.v; not yet compared with real frames - '
+    'Proofs/TuiViewsProofs.v, TuiPrivacyHistory.v): no frame in any view or mode contains address, host name, AS, GeoIP or map-location text of a hidden hop nor the source; rows beyond the limit are drawn exactly as without privacy; hidden rows do not depend '
+    'on the hop\'s addresses in text or height; the level moves only by the two privacy operations, one step, within 0..hop count, and dialogs block the keys. Observations shown by witness: the map selection rectangle is drawn for a hidden selected hop that '
+    'shares its location with a visible one (graphics, no text); with first-ttl k > 1 the last k-1 rows cannot be hidden from the keyboard (the level is bounded by the hop count, as the property says). The harness now varies the first ttl of the traces.')
+CLAIMED['C03']['text'] += ' Byte level: the foreign quotations of mode recv (incl. a foreign payload quoted only up to a prefix of the marker) carry a C03 tag.'
+CLAIMED['C08']['text'] += ' A run the harness has to end is judged: the open round must not have been open longer than the policy allows (hung rounds, e.g. configurations that can send nothing).'
